@@ -253,13 +253,15 @@ CLAIMS = {
     "C15": dict(
         category="proof",
         text=("Theorems (lean/RNacos/Props/C15.lean) on a message-level model of the naming synchronisation (owner's instances, "
-              "pending changes, coalesced batches in flight over an ordered link, receiver's copy): for EVERY interleaving of "
-              "client operations, delayed flushes and deliveries, whenever nothing is pending and nothing is in flight the "
+              "pending changes, the queue of HTTP heartbeats with its own 15 s flush, coalesced batches in flight over an ordered "
+              "link, receiver's copy): for EVERY interleaving of client operations, heartbeats, delayed flushes, heartbeat "
+              "flushes and deliveries, whenever nothing is pending, queued or in flight the "
               "receiver's copy equals the owner's instances (quiescent_copy_is_own, by the invariant 'copy + everything on its "
               "way = owner'), two receivers agree (receivers_agree), and keeping only the last change per key does not change "
               "a batch's effect (coalescing_sound). That the queues do drain is liveness over the real scheduler: explored on "
               "real 3-process clusters (HTTP registrations addressed to arbitrary nodes, a kill/restart in between, lists of "
-              "every node compared after settling)."),
+              "every node compared after settling; directed scenarios: a rolling replacement through every node, heart-beating "
+              "clients of which one deregisters right after a beat - compared after the owner's next heartbeat flush)."),
         note=("partial: safety form of convergence only; 'eventually', node-death detection and gRPC-held instances are not "
               "proved (no gRPC clients in the scenarios); the model is hand-written and tied to the code only through the "
               "cluster scenarios' agreement oracle; observed: a register/deregister/register of one persistent instance "
